@@ -69,11 +69,13 @@ type Case struct {
 	Workers int   `json:"workers"`
 	BaseMs  int64 `json:"base_ms"` // clock starts at baseUnix s + BaseMs ms
 	Ops     []Op  `json:"ops"`
+	// LocalOff: the process-local zone (time.Local) while the case runs, seconds east of UTC
+	LocalOff int `json:"local_off,omitempty"`
 }
 
 const rule = "rapid: history of <=40 ops (Schedule/re-Schedule/Release/Advance/SetExecutorBehaviour/Unblock) over ids 1..5, 24 schedules (@every 1s..1h, 5/6-field cron incl. fixed minute/hour fields, " +
 	"7-field cron bounded to the year in which the clock starts), lastScheduled in UTC or a fixed-offset location, clock start incl. 3..90 s before the end of the year (schedules run out), " +
-	"offsets 0/+-s, 1..4 workers, mock clock; non-trivial = a clock jump over >=3 occurrences of a task while another task's executor is blocked on the same worker; distinct by case hash"
+	"offsets 0/+-s, 1..4 workers, mock clock, process-local zone UTC or a fixed offset (+05:30, -03:30, +01:00, +12:45); non-trivial = a clock jump over >=3 occurrences of a task while another task's executor is blocked on the same worker; distinct by case hash"
 
 type specT struct {
 	s string
@@ -107,6 +109,7 @@ func gen(t *rapid.T) Case {
 	var c Case
 	c.Workers = rapid.IntRange(1, 4).Draw(t, "workers")
 	c.BaseMs = rapid.SampledFrom(bases).Draw(t, "base")
+	c.LocalOff = rapid.SampledFrom([]int{0, 0, 19800, -12600, 3600, 45900}).Draw(t, "localzone")
 	nearEnd := c.BaseMs >= yearEndMs-100_000
 	n := rapid.IntRange(1, 40).Draw(t, "n")
 	period := map[int]int64{}  // generator's view of what is scheduled
@@ -599,6 +602,13 @@ func run(c Case, cc *kit.Case) {
 		cc.Fail("harness/case", "workers=%d", c.Workers)
 		return
 	}
+	if c.LocalOff != 0 {
+		// the zone of the server: set before the scheduler exists, restored after everything of the
+		// case has ended (the deferred teardown below runs first)
+		time.Local = time.FixedZone("local", c.LocalOff)
+		defer func() { time.Local = time.UTC }()
+		cc.Label("process-local-zone-not-utc")
+	}
 	w := &world{notify: make(chan struct{}, 1), workers: c.Workers}
 	base := time.Unix(baseUnix, 0).UTC().Add(time.Duration(c.BaseMs) * time.Millisecond)
 	w.cur = base.UnixNano()
@@ -1030,6 +1040,7 @@ func tail(s []string, n int) []string {
 }
 
 var assumptions = []string{
+	"the zone of the process (time.Local) is UTC or a fixed offset, set for the duration of a case: cron strings of the task scheduler are UTC whatever the server's zone (cron.ParseUTC), so the expected occurrences do not depend on it",
 	"occurrences are computed with the scheduler.Schedule (influxdata/cron) value handed to the scheduler: the cron library is trusted; it evaluates the fields in the location of its argument, so the model always hands it UTC times (cron strings are UTC: scheduler.NewSchedule and ValidateSchedule parse them with cron.ParseUTC)",
 	"the last-scheduled time is an instant: the time.Time handed to NewSchedule is in UTC or in a fixed-offset location (a caller can produce both: TreeScheduler.work passes time.Unix(..), i.e. the process-local zone, to UpdateLastScheduled, task/kv persists LatestScheduled as RFC3339 JSON and coordinator.NewSchedulableTask hands the decoded value to NewSchedule unchanged); for cron strings the expected occurrences are counted from that instant cut to the whole second, not from the value NewSchedule returns; for '@every d' the alignment to a multiple of d is taken from NewSchedule's return value as an instant (the property does not define the alignment)",
 	"a schedule can end (7-field cron with a year field; cron Next returns an error after the last occurrence): the last occurrence is still due and must run, after it no run of that id is expected until it is scheduled again; a Schedule call whose schedule has no occurrence after lastScheduled is not issued (its effect is not defined by the property)",
